@@ -125,6 +125,10 @@ def run_e2e(spec, res):
     for i in range(spec["n"]):
         base = wc.gen_single(rng, "small") if (i + int(spec["seed"][2])) % 5 else wc.gen_joint(rng, "joint")
         base["data"]["flavor"] = "plain"
+        if (i + int(spec["seed"][2])) % 2:
+            # sensors in very large / very small units (a rescaling step keyed on the data scale must treat both forms alike)
+            base["data"]["flavor"] = "uniform_scale"
+            base["data"]["scale"] = float(10.0 ** rng.choice([-5, -4, 4, 5]))
         base["data"]["n_reg"] = base["K"]
         base["data"]["seg"] = 8
         base["biased"] = True
